@@ -37,7 +37,7 @@ PDH_RE = re.compile(rb"\A[0-9a-f]{32}\+([0-9]+)\Z")
 
 
 def channel(case):
-    return "sch" if case.startswith(("rq ", "rqp ")) else "dc"
+    return "sch" if case.startswith(("rq ", "rqp ")) else "dc"       # choose / arith / cq run in lib/dispatchcloud
 
 
 # ----------------------------------------------------------------------------- spec helpers (oracle)
@@ -289,6 +289,106 @@ def _gen_rq(rng, maxn, real=False):
     return f"{'rqp' if real else 'rq'} {quota}:{cancreate} {types} {es}"
 
 
+
+# ---- container.Queue histories (op cq)
+
+CQ_TYPE_OF_NEED = {0: 0, 1: 0, 2: 1, 3: 2, 4: 2}          # cheapest type (1, 2, 4 VCPUs) that fits; need >= 5: none
+
+
+def _gen_cq(rng):
+    """A controller state, a history of queue operations with controllable poll windows, then one pass.
+    The generator keeps a rough picture of the cache so that Lock/Unlock/Cancel are asked only for
+    containers the scheduler could know about, and so that every change made behind the dispatcher's
+    back is followed by a complete poll before the pass (otherwise the scheduler cannot know better)."""
+    n = rng.randint(1, 6)
+    prios = rng.sample(range(1, 20), n)                  # distinct priorities: one outcome of the sort
+    ctl = {}
+    for u in range(1, n + 1):
+        r = rng.random()
+        st = "Q" if r < 0.5 else "L" if r < 0.8 else "R" if r < 0.9 else rng.choice("CX")
+        mine = st in "LR" and rng.random() < 0.85
+        need = rng.choice([1, 1, 1, 2, 2, 3, 4, 5, 9]) if rng.random() < 0.9 else 0
+        prio = prios[u - 1] if rng.random() < 0.9 else 0
+        ctl[u] = {"st": st, "prio": prio, "need": need, "mine": mine}
+    init = ",".join(f"{u}:{c['st']}:{c['prio']}:{c['need']}:{'m' if c['mine'] else '-'}" for u, c in ctl.items())
+    hist = []
+    known = set()                                        # uuids a completed poll has shown us (satisfiable)
+
+    def listed(c):
+        return c["mine"] or (c["st"] == "Q" and c["prio"] > 0)
+
+    def local_op():
+        cand = [u for u in known if ctl[u]["st"] in "QL"]
+        if not cand:
+            return
+        u = rng.choice(cand)
+        c = ctl[u]
+        op = rng.choice("LLUC") if c["st"] == "Q" else rng.choice("UUULC")
+        hist.append(f"{op}{u}")
+        if op == "L" and c["st"] == "Q":
+            c["st"], c["mine"] = "L", True
+        elif op == "U" and c["st"] == "L" and c["mine"]:
+            c["st"], c["mine"] = "Q", False
+        elif op == "C" and (c["st"] == "Q" or c["mine"]):
+            c["st"], c["mine"] = "X", False
+
+    def external():
+        u = rng.choice(list(ctl))
+        c = ctl[u]
+        r = rng.random()
+        if r < 0.4:
+            c["prio"] = rng.choice([0, c["prio"], rng.randint(1, 30)])
+        elif c["st"] == "L" and c["mine"] and r < 0.7:
+            c["st"] = "R"
+        elif c["st"] == "R":
+            c["st"], c["mine"] = "C", False
+        elif c["st"] == "Q":
+            c["st"] = "X"
+        hist.append(f"x{u}:{c['st']}:{c['prio']}")
+
+    def poll(window):
+        hist.append("ub")
+        for _ in range(rng.choice([0, 0, 1]) if window else 0):
+            local_op()
+        hist.append("us")
+        snap = {u: dict(c) for u, c in ctl.items()}
+        for _ in range(rng.choice([1, 1, 2, 3]) if window else 0):
+            local_op()
+        hist.append("ue")
+        for u, c in snap.items():
+            if listed(c) and c["need"] <= 4:
+                known.add(u)
+            elif listed(c) and c["st"] in "QL" and c["need"] > 4:
+                # unsatisfiable: the queue locks / flags / cancels it (unless a fault was injected)
+                cur = ctl[u]
+                if cur["st"] == "Q":
+                    cur["st"], cur["mine"] = "L", True
+                if cur["st"] == "L" and cur["mine"]:
+                    if u in faults:
+                        faults.discard(u)
+                    else:
+                        cur["st"], cur["mine"] = "X", False
+
+    faults = set()
+    for u, c in ctl.items():
+        if c["need"] > 4 and rng.random() < 0.4:
+            faults.add(u)
+            hist.append(f"f{u}")
+    npolls = rng.choice([1, 2, 2, 3])
+    for i in range(npolls):
+        if i > 0 or rng.random() < 0.2:
+            for _ in range(rng.choice([0, 1, 1, 2])):
+                external() if rng.random() < 0.6 else local_op()
+        poll(window=rng.random() < 0.6)
+    # after the last complete poll only the dispatcher's own operations
+    for _ in range(rng.choice([0, 0, 1, 2])):
+        local_op()
+    nt = rng.choice([1, 2, 3, 3])
+    quota = rng.choice([0, 0, 1, 99, 99, 99])
+    cancreate = rng.choice([0, 1, 99, 99])
+    types = ",".join(f"{rng.choice([0, 0, 1, 1, 2])}:{rng.choice([0, 0, 1])}:{rng.choice('iiiiifsx')}" for _ in range(nt))
+    return f"cq {quota}:{cancreate} {types} {init} {','.join(hist) or '-'}"
+
 MALFORMED = [
     "choose",
     "choose 0 - 1:1:0:0 -",
@@ -312,6 +412,13 @@ MALFORMED = [
     "rqp 0:99 0:0:i 1:1:L:0:k",
     "rqp 0:99 0:0:i 1:1:L:1:-",
     "rqp 0:99 0:0:i 1:1:L:1:r",
+    "cq 99:99 1:0:i 1:Q:5:1:- ub,ub",
+    "cq 99:99 1:0:i 1:Q:5:1:- us",
+    "cq 99:99 1:0:i 1:Q:5:1:- ub,us",
+    "cq 99:99 1:0:i 1:Q:5:1:m -",
+    "cq 99:99 1:0:i 1:Q:5:1:-,1:L:4:1:m -",
+    "cq 99:99 1:0:i 1:Q:5:1:- x9:Q:1",
+    "cq 99:99 1:0:i 1:Q:5:1:- Z1",
     "frob 1 2 3",
 ]
 
@@ -327,6 +434,8 @@ def generate(rng, tier):
         cases.append(_gen_rq(rng, 6 if quick and rng.random() < 0.7 else 8))
     for _ in range(500 if quick else 15000):
         cases.append(_gen_rq(rng, 6 if quick and rng.random() < 0.7 else 8, real=True))
+    for _ in range(600 if quick else 15000):
+        cases.append(_gen_cq(rng))
     return cases
 
 
@@ -359,7 +468,7 @@ def compare(case, impl, model):
             # the model separates groups with '|' too; the implementation's '|' separates repeats
             return all(o.startswith("unsat:") and _groups_ok(o[6:].split(","), groups) for o in outs)
         return False
-    if case.startswith(("rq ", "rqp ")):
+    if case.startswith(("rq ", "rqp ", "cq ")):
         return impl in model.split("|")
     return False
 
@@ -488,6 +597,74 @@ def _oracle_rq(case, impl):
     return None
 
 
+
+def _oracle_cq(case, impl):
+    """Judged against the controller's states (ctl0, before the pass): every schedulable cache entry carries
+    the cheapest adequate configured type, an unsatisfiable container never reaches the scheduler with a
+    type, every pool call names a configured type, and the two ordering clauses hold for the pass."""
+    f = case.split(" ")
+    need = {}
+    for s in f[3].split(","):
+        p = s.split(":")
+        need[int(p[0])] = int(p[3])
+    parts = dict(p.split("=", 1) for p in impl.split(";") if "=" in p)
+    for k in ("cache", "ctl0", "tr", "ctl"):
+        if k not in parts:
+            return "driver could not observe the queue: " + impl[:200]
+    cache = {}
+    if parts["cache"] != "-":
+        for s in parts["cache"].split(","):
+            u, st, prio, ty = s.split(":")
+            cache[int(u)] = (st, int(prio), ty)
+    ctl0 = {}
+    if parts["ctl0"] != "-":
+        for s in parts["ctl0"].split(","):
+            u, st, prio, fl = s.split(":")
+            ctl0[int(u)] = (st, int(prio), "m" in fl)
+    ctl1 = {}
+    if parts["ctl"] != "-":
+        for s in parts["ctl"].split(","):
+            u, st, prio, fl = s.split(":")
+            ctl1[int(u)] = (st, int(prio), "m" in fl)
+    for u, (st, prio, ty) in cache.items():
+        if st in "QL":
+            want = CQ_TYPE_OF_NEED.get(need[u])
+            if want is None:
+                return (f"unsatisfiable container {u} ({need[u]} VCPUs, state {st}) is in the queue with instance type "
+                        f"{'<zero value>' if ty == 'z' else ty} instead of getting an error")
+            if ty != str(want):
+                return f"container {u} needing {need[u]} VCPUs is queued with type {ty}, the cheapest adequate type is {want}"
+    evs = [] if parts["tr"] == "-" else parts["tr"].split(",")
+    for ev in evs:
+        m = re.match(r"^[cd](-?\d+)", ev) or re.match(r"^s(-?\d+)\.", ev)
+        if m and m.group(1) not in ("0", "1", "2") and ev[0] in "cs":
+            return f"the scheduler asked the pool for an instance type that is not configured: {ev}"
+    # ordering clauses, with "Locked" and the priorities as the controller has them
+    def waiting(u):
+        # an unsatisfiable container that the queue locked in order to cancel it waits for no worker
+        return u in ctl0 and ctl0[u][0] == "L" and ctl0[u][2] and CQ_TYPE_OF_NEED.get(need[u]) is not None
+    started = []
+    for ev in evs:
+        m = EV_START.match(ev)
+        if m and m.group(3) == "1":
+            u = int(m.group(2))
+            if u in need and CQ_TYPE_OF_NEED.get(need[u]) is not None:
+                tb = CQ_TYPE_OF_NEED[need[u]]
+                pb = ctl0[u][1] if u in ctl0 else 0
+                for a in ctl0:
+                    if (waiting(a) and a != u and a not in started and CQ_TYPE_OF_NEED.get(need[a]) == tb
+                            and ctl0[a][1] > pb):
+                        return (f"container {u} (priority {pb}) was started while container {a} (priority {ctl0[a][1]}), "
+                                f"Locked at the controller and needing the same instance type, is still waiting for a worker")
+            started.append(u)
+    unlocked = [a for a in ctl0 if waiting(a) and a in ctl1 and ctl1[a][0] == "Q" and ("u%d" % a) in evs]
+    for a in unlocked:
+        for b in ctl0:
+            if waiting(b) and b not in started and ctl0[b][1] < ctl0[a][1] and ctl1.get(b, ("",))[0] == "L":
+                return (f"at quota container {a} (priority {ctl0[a][1]}) was unlocked while the lower-priority waiting "
+                        f"container {b} (priority {ctl0[b][1]}) keeps its lock")
+    return None
+
 def oracle(case, impl):
     if impl.startswith(("panic", "CRASH", "timeout")):
         return "driver could not observe a result: " + impl[:200]
@@ -498,6 +675,8 @@ def oracle(case, impl):
             return _oracle_arith(case, impl)
         if case.startswith(("rq ", "rqp ")) and impl != "bad-op":
             return _oracle_rq(case, impl)
+        if case.startswith("cq ") and impl != "bad-op":
+            return _oracle_cq(case, impl)
     except (ValueError, IndexError, KeyError):
         return None                          # malformed case line: nothing to decide
     return None
@@ -516,6 +695,8 @@ def nontrivial_key(case, impl):
             return case if len(live) >= 2 else None
         if f[0] == "arith":
             return case if impl not in ("bad-op", "img=0 scratch=0") else None
+        if f[0] == "cq":
+            return case if ("ub" in f[4] and impl != "bad-op" and "cache=-;" not in impl) else None
     except (ValueError, IndexError):
         return None
     return None
@@ -585,6 +766,9 @@ def neighbours(case, rng):
                 out.append(f"{f[0]} {rng.choice([0, 99] if f[0] == 'rqp' else [0, 1, 99])}:{rng.choice([0, 1, 99])} {f[2]} {f[3]}")
         elif f[0] == "arith":
             out.append(_gen_arith(rng))
+        elif f[0] == "cq":
+            for _ in range(5):
+                out.append(_gen_cq(rng))
     except (ValueError, IndexError):
         pass
     return out
